@@ -33,7 +33,18 @@ CONST = None
 def consts():
     global CONST
     if CONST is None:
-        CONST = genresults.constants()
+        try:
+            CONST = genresults.constants()
+        except Exception:   # noqa: translator failed closed (reported by the proof phase); the impl-side
+            # search for a failing input still needs the names: take them from the live objects
+            import inspect
+            import jade.jobs.results_aggregator as ra
+            from jade.common import RESULTS_DIR
+            from jade.result import Result
+            d = inspect.signature(ra.ResultsAggregator.__init__).parameters.get("delimiter")
+            CONST = {"fields": list(Result._fields), "delimiter": d.default if d is not None else ",",
+                     "processed": ra.PROCESSED_RESULTS_FILENAME, "results_dir": RESULTS_DIR,
+                     "glob": "results_batch_*.csv", "lock_suffix": ".lock"}
     return CONST
 
 
@@ -617,10 +628,14 @@ def chooser_random(rng):
     return lambda en, step: rng.choice(en)
 
 
-def chooser_replay(schedule):
+def chooser_replay(schedule, diverged=None):
+    """follow a recorded schedule; where the recorded actor is not enabled on this tree (the recorded
+    interleaving is impossible here) take the first enabled one and note the step in `diverged`"""
     def ch(en, step):
-        if step < len(schedule):
+        if step < len(schedule) and schedule[step] in en:
             return schedule[step]
+        if diverged is not None and step < len(schedule):
+            diverged.append(step)
         return en[0]
     return ch
 
